@@ -14,6 +14,7 @@ limitations under the License.
 package dir
 
 import (
+	"errors"
 	"fmt"
 	"os"
 	"path/filepath"
@@ -64,6 +65,12 @@ func (d *Dir) Write(files map[string][]byte) error {
 			return err
 		}
 		d.log.Infof("Written file %s", file)
+	}
+
+	// A previous Write (possibly by an earlier process) may have been interrupted after creating the link but before
+	// renaming it: remove the stale link, or every later Write would fail because it already exists.
+	if err := os.Remove(d.target + ".new"); err != nil && !errors.Is(err, os.ErrNotExist) {
+		return err
 	}
 
 	if err := os.Symlink(newDir, d.target+".new"); err != nil {
